@@ -269,8 +269,6 @@ def finding_status() -> Tuple[List[str], List[str]]:
             fixed.add(fid)
     if quoted_probe_fixed():
         fixed.add("string-annotation-no-parent")
-    if shared_probe_fixed():
-        fixed.add(SHARED_FINDING)
     for fid, val in LIT_PROBES.items():
         got = literal_value(shown_pyval(ast.Constant(val), 0, 0, False)[0])
         if type(got) is type(val) and got == val:
@@ -807,7 +805,6 @@ def run_layout(ctx: Ctx, sources: List[str], fixed_ids: List[str], stats: Dict[s
 
 
 # ----------------------------------------------------------------------- history: shared class-level nodes
-SHARED_FINDING = "shared-linewrap-mutated"
 PROBE_VALUE = 1234567890
 
 
@@ -820,15 +817,6 @@ def reset_shared_nodes() -> None:
 
 def probe_text() -> str:
     return shown_pyval(ast.Constant(PROBE_VALUE), 4, 0, True)[0]
-
-
-def shared_probe_fixed() -> bool:
-    reset_shared_nodes()
-    clean = probe_text()
-    shown_pyval(ast.parse("(12345678901234567890+b)*c", mode="eval").body, 12, 1, False)
-    after = probe_text()
-    reset_shared_nodes()
-    return after == clean
 
 
 def run_history(ctx: Ctx, sources: List[str], trees_file: Any, fixed_ids: List[str], open_ids: List[str],
@@ -863,16 +851,8 @@ def run_history(ctx: Ctx, sources: List[str], trees_file: Any, fixed_ids: List[s
             ctx.violation({"invariant": "HistoryIndependent", "origin": "history", "input": src, "linelen": rec["ll"],
                            "maxlines": rec["ml"], "observed": {"first": shown, "probe_after": after, "probe_clean": clean},
                            "expected": "the probe shows the same text whatever was rendered before",
-                           "design_classes": [SHARED_FINDING] if not rec["wrapok"] else [], "drift": drift,
-                           "key": f"hist:{'' if not rec['wrapok'] and not drift else src + str(rec['ll'])}"})
+                           "design_classes": [], "drift": drift, "key": f"hist:{src}:{rec['ll']}:{rec['ml']}"})
     reset_shared_nodes()
-
-
-def kf_history(open_ids: List[str]):
-    def match(w: Dict[str, Any]) -> bool:
-        return (w.get("invariant") == "HistoryIndependent" and not w.get("drift")
-                and w.get("design_classes") == [SHARED_FINDING] and SHARED_FINDING in open_ids)
-    return match
 
 
 # ------------------------------------------------------------------------------ random deeper trees
@@ -982,7 +962,6 @@ def run(ctx: Ctx) -> int:
         ctx.register_matcher(fid, kf_matcher(fid, open_ids))
     for fid in STR_FINDINGS:
         ctx.register_matcher(fid, kf_literal(fid, open_ids))
-    ctx.register_matcher(SHARED_FINDING, kf_history(open_ids))
     check_astor_table(ctx)
     stats = {k: 0 for k in ("seen", "drift", "design_bad", "violations", "incomplete", "necessity_checked",
                             "design_bad_but_real_ok", "strings", "layout", "layout_complete", "layout_wrapped",
@@ -1103,6 +1082,15 @@ def replay(ctx: Ctx, path: str) -> int:
         got = literal_value(shown)
         bad = not (complete and type(got) is type(value) and got == value)
         print(f"replay: value {w['input']} shown {shown!r} ->", "still violated" if bad else "holds now")
+    elif w.get("invariant") == "HistoryIndependent":
+        reset_shared_nodes()
+        clean = probe_text()
+        shown_pyval(ast.parse(w["input"], mode="eval").body, w["linelen"], w["maxlines"], False)
+        after = probe_text()
+        reset_shared_nodes()
+        bad = after != clean
+        print(f"replay: {w['input']!r} at linelen {w['linelen']} (one line), then the probe -> {after!r}:",
+              "still violated" if bad else "holds now")
     elif w.get("invariant") == "OrderKept":
         out, cp, ln, exc = real_output(w["linelen"], w["maxlines"], w["col"], w["input"])
         bad = exc == "none" and out.replace(chr(8629) + "\n", "") != "p" * w["col"] + w["input"]
